@@ -15,7 +15,7 @@ fi
 if [ -n "$4" ]; then
   (cd "$W" && /venv/bin/python -m pytest -q -p no:cacheprovider $4 2>&1 | tail -1 | sed 's/^/tests on seeded: /')
 fi
-cd /verif && cp -f evidence/$P.json /tmp/ev-$P-$$.json 2>/dev/null
+cd /verif
 VERIF_REPO="$W" ./check "$P" --tier "$T" 2>&1 | grep -E "VIOLATION|KNOWN-FINDING|^$P:" | head -5
 echo "check exit: ${PIPESTATUS[0]}"
-cp -f /tmp/ev-$P-$$.json evidence/$P.json 2>/dev/null; rm -f /tmp/ev-$P-$$.json
+
